@@ -163,7 +163,8 @@ def run_part(chk, n_cfg=None, unis=None):
                 pv["accepted_with_abstract_selection"] = pv.get("accepted_with_abstract_selection", 0) + 1
             if "(accepted true)" in detail:
                 pv["accepted"] += 1
-                th = "tv3_sound" if "(theorem tv3_sound)" in detail else "tv2_sound"
+                thm = re.search(r"\(theorem (\w+)\)", detail)
+                th = thm.group(1) if thm else "tv2_sound"
                 pv["accepted_by_theorem"][th] = pv["accepted_by_theorem"].get(th, 0) + 1
                 dm = re.search(r"\(depth (\d+)\)", detail)
                 if dm:
